@@ -162,9 +162,8 @@ pub fn record_strict(out: &mut Out, tier: &str, seed: u64) {
                     strict_event::<F>(out, "spelling", &s);
                 }
                 let cat = catalogue(&fr, rng);
-                // a sample of the catalogue per packet (C20 runs all of it), incl. combinations of two
-                for _ in 0..12.min(cat.len()) {
-                    let m = rng.pick(&cat);
+                // the whole catalogue at every site of the packet (as C20 does): the verdict on each edited frame
+                for m in &cat {
                     strict_event::<F>(out, m.m, &m.bytes);
                 }
             }
